@@ -175,6 +175,22 @@ def check_props(prop_id, workdir):
             "unprinted": missing}
 
 
+def coqchk(prop_id):
+    """Independent re-check of props/<id>.vo and everything it depends on (thorough tier).
+    Returns (ok, summary dict)."""
+    rc, log = sh(["bash", "-c", 'ulimit -s unlimited 2>/dev/null; exec "$@"', "coqchk-big-stack",
+                  "timeout", "1700", "coqchk", "-silent", "-o", "-Q", COQ, "FA", f"FA.props.{prop_id}"], cwd=COQ, timeout=1800)
+    summ = {}
+    for key, pat in [("axioms", r"\* Axioms:(.*?)\n\s*\n"), ("type_in_type", r"type-in-type:(.*?)\n\s*\n"),
+                     ("unsafe_fixpoints", r"unsafe \(co\)fixpoints:(.*?)\n\s*\n"), ("positivity_assumed", r"positivity is assumed:(.*?)\n\s*\n")]:
+        m = re.search(pat, log + "\n\n", re.S)
+        summ[key] = re.sub(r"\s+", " ", m.group(1)).strip() if m else "?"
+    ok = rc == 0 and all(v == "<none>" for k, v in summ.items() if k != "axioms") and \
+        (summ["axioms"] == "<none>" or set(summ["axioms"].split()) <= ALLOWED_AXIOMS)
+    summ["exit"] = rc
+    return ok, summ
+
+
 def coq_eval(exprs, imports, workdir, tag="cases", shard=250, scope="string_scope", timeout=600):
     """Evaluate each Gallina expression (of type string) with vm_compute inside Coq.
     Returns list of result strings (None where evaluation failed)."""
